@@ -185,6 +185,47 @@ def run_barrier_witness(ctx):
                        "replay_passing": "1;2;1;3;2;2;1;4;2;4", "results": res}, key=KEY_BARRIER)
 
 
+KEY_COMMTEST = "comm-test-vs-async-send-recv-unpaired"
+
+
+def run_commtest_witness(ctx):
+    """Replay of `comm_send_test_counterexample`: witness_commtest.cpp.  The two orders of (R's COMM_TEST on its unpaired
+    receive, S's COMM_ASYNC_SEND on that mailbox) are replayed out of the checker: path 1;1;2 (test first: assertion holds)
+    vs 1;2;1 (send first: the test succeeds, the assertion fails); then the reductions are run on the program."""
+    import subprocess
+    from vlib import core
+    w = ctx.build_harness("witness_commtest.cpp", flags=("-w",))
+    if not w:
+        return
+    env = dict(os.environ, **ctx.sg_env())
+
+    def replay(path):
+        p = subprocess.run([w, "--cfg=model-check/replay:" + path], capture_output=True, text=True, timeout=60, env=env, cwd=ctx.work)
+        return "assert-fails" if "MC assertion failed" in (p.stdout + p.stderr) else "rc=%d" % p.returncode
+    a, b = replay("1;2;1"), replay("1;1;2")
+    res = {"replay recv;SEND;TEST": a, "replay recv;TEST;SEND": b}
+    mc = os.path.join(core.SGBUILD, "bin", "simgrid-mc")
+    missed = []
+    for r in (["dpor"] if ctx.tier == "quick" else ["dpor", "sdpor", "odpor", "udpor", "none"]):
+        try:
+            rc = subprocess.run([mc, "--cfg=model-check/reduction:" + r, "--log=root.thres:critical", w], capture_output=True,
+                                text=True, timeout=120, env=env, cwd=ctx.work).returncode
+        except subprocess.TimeoutExpired:
+            rc = "timeout"
+        res["simgrid-mc reduction:" + r] = rc
+        if rc == 0:
+            missed.append(r)
+        ctx.cov["evaluations"] += 1
+    ctx.cov["commtest_witness"] = res
+    ctx.cov["evaluations"] += 2
+    if a == "assert-fails" and b != "assert-fails":
+        ctx.violation("COMM_TEST on an unpaired comm x COMM_ASYNC_SEND on its mailbox is declared independent, but the test result "
+                      "differs in the two orders (replays: %s vs %s)%s" % (a, b, "; reductions %s finish with exit 0 although the failing "
+                                                                          "execution 1;2;1 exists" % missed if missed else ""),
+                      {"program": "props/C39/witness_commtest.cpp", "replay_failing": "1;2;1", "replay_passing": "1;1;2",
+                       "results": res}, key=KEY_COMMTEST)
+
+
 def run(ctx):
     ctx.cov["rule"] = ("pairs of synthetic transitions drawn from splitmix64(VERIF_SEED): 60% inside one dependency group "
                        "(mutex / sem / barrier / comm incl. TESTANY,WAITANY / condvar+mutex / actor), 40% any two kinds, "
@@ -209,6 +250,7 @@ def run(ctx):
     corpus = [l.strip() for l in open(ctx.pdir + "/corpus.txt") if l.strip() and not l.startswith("#")]
     if ctx.replay and "program" in json.load(open(ctx.replay))["case"]:
         run_barrier_witness(ctx)
+        run_commtest_witness(ctx)
         return
     if ctx.replay:
         queries = [(json.load(open(ctx.replay))["case"]["query"], (None, None, False))]
@@ -260,6 +302,7 @@ def run(ctx):
                 ctx.broken.append({"kind": "depends-differs", "query": q, "impl": l, "verdict": v[:300]})
     if not ctx.replay:
         run_barrier_witness(ctx)
+        run_commtest_witness(ctx)
     ctx.cov["samples"] = out[:2] + out[len(corpus):len(corpus) + 4]
     if table:
         n_t = len(table["types"])
